@@ -255,7 +255,12 @@ def _y_normalize(interp, env, value, args):
     ex.prove('C06:yield keeps cod', T.ty_eq(value.cod.t, self.cod.t))
     prove_wf(ex, 'C01:normalize.yield', value)
     # exactly the interchange of the predecessor at (i, i + 1) in the requested direction, and that move is legal
-    prev, i, left = env.lookup('__cur'), env.lookup('i'), env.lookup('left')
+    try:
+        prev, i, left = env.lookup('__cur'), env.lookup('i'), env.lookup('left')
+    except KeyError:
+        from pyvc.interp import Unsupported
+        raise Unsupported('a yield of normalize is no longer inside the inner loop right after an interchange: '
+                          'the contract (one yield per interchange) cannot be bound to this code')
     w = interp.world
     w.spec_mode += 1
     try:
@@ -281,3 +286,122 @@ def _e_normalize(interp, args, kwargs, result):
 contract('rewriting.normalize', params=_p_normalize, ensures=_e_normalize, loops={0: _NORM_OUTER, 1: _NORM_INNER},
          property_ids=('C06', 'C01'))
 CONTRACTS['rewriting.normalize'].on_yield = _y_normalize
+
+
+# ------------------------------------------------------------------ interchange, distant boxes (|i - j| > 1)
+#
+# The body iterates adjacent moves.  Loop invariant after k steps (moving towards smaller indices; the other
+# direction is symmetric): the current diagram X is well-formed with the same dom / cod / length, every layer
+# outside [i - k, i] is the input's, the moving box sits at i - k, and the boxes it passed moved one place back:
+# X.box(t) = self.box(t - 1) for i - k < t <= i.  At exit this is the frame + box-order clause of the property
+# ("box i has been moved to position j ..., all other boxes keeping their relative order"); every step is an
+# axiom instance by the adjacent contract.
+
+def _rel_up_hyps(ex, X, S, i, k):
+    Xl, Xb, Xr = X._fns
+    Sl, Sb, Sr = S._fns
+    n = S.boxes.length()
+    pos = i - k
+    ex.assume(z3.Implies(z3.And(0 <= pos, pos < n), Xb(pos) == Sb(i)))
+    ex.add_qhyp(None, lambda t: [
+        (z3.And(0 <= t, t < n, z3.Or(t < pos, t > i)),
+         z3.And(Xl(t) == Sl(t), Xb(t) == Sb(t), Xr(t) == Sr(t))),
+        (z3.And(0 <= t, t < n, pos < t, t <= i), Xb(t) == Sb(t - 1))])
+
+
+def _rel_down_hyps(ex, X, S, i, k):
+    Xl, Xb, Xr = X._fns
+    Sl, Sb, Sr = S._fns
+    n = S.boxes.length()
+    pos = i + k
+    ex.assume(z3.Implies(z3.And(0 <= pos, pos < n), Xb(pos) == Sb(i)))
+    ex.add_qhyp(None, lambda t: [
+        (z3.And(0 <= t, t < n, z3.Or(t < i, t > pos)),
+         z3.And(Xl(t) == Sl(t), Xb(t) == Sb(t), Xr(t) == Sr(t))),
+        (z3.And(0 <= t, t < n, i <= t, t < pos), Xb(t) == Sb(t + 1))])
+
+
+def _prove_rel(ex, label, X, S, i, k, up):
+    """X (any diagram value) satisfies the relation with the input S after k steps"""
+    n = S.boxes.length()
+    Sl, Sb, Sr = S._fns
+    ex.prove(label + ':same dom', T.ty_eq(X.dom.t, S.dom.t))
+    ex.prove(label + ':same cod', T.ty_eq(X.cod.t, S.cod.t))
+    ex.prove(label + ':same length', X.boxes.length() == n)
+    pos = z3.simplify(i - k if up else i + k)
+
+    def moving():
+        b = ex.list_at(X.boxes, pos)
+        ex.prove(label + ':the moving box sits at i -/+ k', b.t == Sb(i))
+    ex.side(moving)
+
+    def pointwise(t):
+        ex.touched.setdefault(-1, (None, {}))[1][z3.simplify(t).sexpr()] = t
+        which = ex.choose([z3.Or(t < (pos if up else i), t > (i if up else pos)),
+                           z3.And(pos < t, t <= i) if up else z3.And(i <= t, t < pos),
+                           t == pos])
+        if which == 0:
+            l = ex.list_at(X.layers.boxes, t)
+            ex.prove(label + ':frame.left', T.ty_eq(l.left.t, Sl(t)))
+            ex.prove(label + ':frame.box', l.box.t == Sb(t))
+            ex.prove(label + ':frame.right', T.ty_eq(l.right.t, Sr(t)))
+        elif which == 1:
+            b = ex.list_at(X.boxes, t)
+            ex.prove(label + ':passed boxes keep their order', b.t == (Sb(t - 1) if up else Sb(t + 1)))
+    ex.forall(n, pointwise)
+
+
+def _far_loop(up):
+    def assume(interp, env, k, seq=None, at_exit=False):
+        ex = interp.ex
+        S = env.lookup('self')
+        i = env.lookup('i').t
+        X = ex.sym_diagram(T.fresh_name('step'), wf=True, n=S.boxes.length(), dom=S.dom.t, cod=S.cod.t, global_inst=True)
+        (_rel_up_hyps if up else _rel_down_hyps)(ex, X, S, i, k)
+        env.set('result', X)
+
+    def check(interp, env, k, label, seq=None):
+        ex = interp.ex
+        S = env.lookup('self')
+        X = interp.world.as_diagram(env.lookup('result'))
+        _prove_rel(ex, label, X, S, env.lookup('i').t, k, up)
+        prove_wf(ex, label, X)
+    return LoopSpec(assume=assume, check=check)
+
+
+def _p_interchange_far(ex):
+    d = ex.sym_diagram('self', wf=True, global_inst=True)
+    i, j = ex.sym_int('i'), ex.sym_int('j')
+    left = ex.sym_bool('left')
+    ex.assume(z3.Or(j.t < i.t - 1, j.t > i.t + 1))
+    ex.compare_spec = False
+    return [d, i, j, left], {}
+
+
+def _e_interchange_far(interp, args, kwargs, result):
+    ex = interp.ex
+    self, i, j, left = args
+    result = interp.world.as_diagram(result)
+    up = ex.branch(j.t < i.t)
+    k = z3.simplify(i.t - j.t if up else j.t - i.t)
+    _prove_rel(ex, 'C05:far', result, self, i.t, k, up)
+    prove_wf(ex, 'C01:interchange.far', result)
+
+
+def _r_interchange_far(interp, args, kwargs, exc):
+    ex = interp.ex
+    self, i, j, left = args
+    n = self.boxes.length()
+    in_range = z3.And(0 <= i.t, i.t < n, 0 <= j.t, j.t < n)
+    if exc == 'IndexError':
+        ex.prove('C05:far.IndexError only for out-of-range indices', z3.Not(in_range))
+    elif exc == 'InterchangerError':
+        ex.prove('C05:far.InterchangerError only for in-range indices (raised by an adjacent step)', in_range)
+    else:
+        ex.prove('C05:far.no other exception (raised %s)' % exc, False)
+
+
+_c = Contract('rewriting.interchange', params=_p_interchange_far, ensures=_e_interchange_far, on_raise=_r_interchange_far,
+              loops={0: _far_loop(True), 1: _far_loop(False)}, property_ids=('C05', 'C01'))
+_c.label = 'rewriting.interchange[far]'
+CONTRACTS[_c.label] = _c
